@@ -80,6 +80,8 @@ char *strrchr(const char *s, int c) { const char *r = 0; for (;; s++) { if (*s =
 /* ---- file system calls */
 struct stat g_lstat; int g_lstat_calls, g_lstat_ok;
 int lstat(const char *p, struct stat *sb) { int r; g_lstat_calls++; if (r) { g_lstat_ok = 0; return -1; } struct stat s; *sb = s; g_lstat = s; g_lstat_ok = 1; return 0; }
+int g_stat_calls;
+int stat(const char *p, struct stat *sb) { int r; g_stat_calls++; if (r) return -1; struct stat s; *sb = s; return 0; }   /* follows symbolic links: must not be used to classify an operand */
 int fstat(int fd, struct stat *sb) { int r; if (r) return -1; struct stat s; __CPROVER_assume(s.st_size >= 0); *sb = s; g_instat_seen = s; return 0; }
 int open(const char *path, int flags, ...)
 {
@@ -212,12 +214,13 @@ void h_input_init(void)
   struct arg op; struct stat sb;
   op.next = 0; op.val = name;
   sym_options();
-  warned = 0; g_open_in_calls = 0; g_lstat_calls = 0; g_cur_operand = name;
+  warned = 0; g_open_in_calls = 0; g_lstat_calls = 0; g_stat_calls = 0; g_cur_operand = name;
   int rv = input_init(&op, &sb);
   V_ASSERT(rv == 0 || rv == -1, "input_init returns 0 or -1");
   V_ASSERT(rv != -1 || warned, "a skipped operand always sets the warning flag (exit status 4)");
   V_ASSERT(rv != 0 || (g_open_in_calls == 1 && ispec.fd == g_in_fd && ispec.fd >= 3 && ispec.total == 0), "an admitted operand was opened exactly once and is the input descriptor");
   V_ASSERT(force || g_lstat_calls == 1, "without -f the operand is lstat()ed first");
+  V_ASSERT(g_stat_calls == 0, "the operand itself is examined (lstat), never the target of a symbolic link (stat): a symlink is not a regular file");
   if (!force) {
     V_ASSERT(g_lstat_ok || (rv == -1 && g_open_in_calls == 0), "lstat failure: skipped, never opened");
     if (g_lstat_ok && outmode == OM_REGF) {
